@@ -176,10 +176,10 @@ def run(chk: Check, model):
     sub = cv.run_generation
     f_gen = cv.fi("_run_generation")
     slot_loops = [l for l in sub.loops.values() if l.kind == "for" and l.iter == T.mk_call("timings_gen.items", [])]
-    ok = len(slot_loops) == 1
+    ok = len(slot_loops) >= 1  # (one pass over the generation's slots, or several: none of them may publish)
     carried = []
     if ok:
-        carried = [n for n, v in slot_loops[0].pre.items() if v == S("graph_state") or mentions(v, "graph_state")]
+        carried = [n for l_ in slot_loops for n, v in l_.pre.items() if v == S("graph_state") or mentions(v, "graph_state")]
         rb_in_loop = [e for e in sub.events if e.kind == "call" and e.name.endswith(".replace_buffer") and e.loops and e.func == f_gen.qualname]
         ok = not carried and not rb_in_loop
     chk.add("C08.writers", "_run_generation: outputs published after all slots of the generation have read", ok,
